@@ -54,10 +54,10 @@ type c13Target struct {
 }
 
 var c13Kinds = []string{"create", "addpart", "flip", "drop", "recreate", "createfail", "create+part", "droppart",
-	"newdb", "newdb2", "flip-recreate", "addpart-defaultlike", "create-unselected"}
+	"newdb", "newdb2", "flip-recreate", "addpart-defaultlike", "create-unselected", "createpending"}
 
 // kinds that may be added as extra writes (they never interfere with another write's target)
-var c13ExtraKinds = []string{"create", "addpart", "flip", "drop", "recreate", "createfail", "create+part", "droppart", "flip-recreate"}
+var c13ExtraKinds = []string{"create", "addpart", "flip", "drop", "recreate", "createfail", "create+part", "droppart", "flip-recreate", "createpending"}
 
 func c13MakeWrite(rnd *rand.Rand, kind string, boundary, n int) c13Write {
 	w := c13Write{Boundary: boundary, Kind: kind, DBName: "default"}
@@ -91,6 +91,8 @@ func c13MakeWrite(rnd *rand.Rand, kind string, boundary, n int) c13Write {
 		}
 	case "createfail":
 		w.Name = "cf" + tag
+	case "createpending":
+		w.Name = "pend" + tag
 	case "create+part":
 		w.Name, w.Part = "cp"+tag, "cpp"+tag
 	case "droppart":
@@ -132,10 +134,10 @@ func c13Plans(run *vf.Run) []c13Plan {
 		plans = append(plans, p)
 	}
 	if run.Thorough() {
-		for v := 0; v < 4; v++ {
+		for v := 0; v < 6; v++ {
 			for _, k := range c13Kinds {
 				for b := 0; b < nBoundaries; b++ {
-					add(k, b, v)
+					add(k, b, v%4)
 				}
 			}
 		}
@@ -159,6 +161,7 @@ func c13Plans(run *vf.Run) []c13Plan {
 		"flip-recreate":       {3, 4, 3, 4},
 		"addpart-defaultlike": {1, 7},
 		"create-unselected":   {1, 5, 8},
+		"createpending":       {3, 5, 8},
 	}
 	for _, k := range c13Kinds {
 		for _, b := range spread[k] {
